@@ -58,7 +58,9 @@ def check(run):
         # a range node that exists in the model (used by some formula) and whose cells are all constants/blank
         rngs = sorted({dep[1] for c in wb.cells.values() if c[0] != 'v' for dep in wb.deps(c[-1])
                        if dep[0] == 'ref' and (dep[1][1], dep[1][3]) != (dep[1][2], dep[1][4]) and dep[1][1] != 0})
-        rngs = [r for r in rngs if all(wb.cells.get(a, ('v',))[0] == 'v' and a not in [x[:3] for x in ov_cells] for a in cells_of_ref(r))]
+        spill = {(s_, r_ + i_, c_ + j_) for (s_, r_, c_), ct in wb.cells.items() if ct[0] == 'a' for i_ in range(ct[1]) for j_ in range(ct[2])}
+        rngs = [r for r in rngs if all(wb.cells.get(a, ('v',))[0] == 'v' and a not in spill and a not in [x[:3] for x in ov_cells]
+                                       for a in cells_of_ref(r))]
         if rngs and rnd.random() < 0.6:
             r = rnd.choice(rngs)
             h, w = r[2] - r[1] + 1, r[4] - r[3] + 1
@@ -136,6 +138,35 @@ def check(run):
                 run.violation('calculate(inputs, outputs) raised %s' % type(ex).__name__, case)
         if k < 2:
             run.sample({'overrides': case['overrides'], 'history': hist, 'cells': len(wb.cells)})
+        q = list(v_fresh)
+        req.append(wb.to_wire(q, overrides=ov_cells))
+        pend.append((wb, q, v_fresh, case, ov_cells))
+    # ---- template stream: one range with 0..3 populated cells, overridden as a range, a sub-range or through a name -----------
+    for k in range(40 if quick else 1500):
+        wb, R, name, outs = bookgen.range_template(rnd)
+        d = wb.to_dict(explicit_blanks=wb.explicit)
+        case = {'workbook': {k_: (str(v) if isinstance(v, bookgen.Err) else v) for k_, v in d.items()}, 'stream': 'range-template'}
+        how = rnd.choice((['range', 'sub-range', 'name'] if name else ['range', 'sub-range']) if wb.explicit else (['range', 'name'] if name else ['range']))
+        rr = R if how != 'sub-range' else (0, 2, 3, 1, 1)
+        vals = [[rnd.choice([4, 6, 20, 30, 0, 8.5])] for _ in range(rr[2] - rr[1] + 1)]
+        key = wb.name_key(name) if how == 'name' else '%s!%s' % (wb.sheet_id(0), wb.ref_text(rr))
+        ov_impl = {key: [[bookrun.to_impl_value(v) for v in row] for row in vals]}
+        ov_cells = [(0, rr[1] + i, 1, vals[i][0]) for i in range(len(vals))]
+        case.update(overrides={key: str(vals)}, kinds=[how], history=[])
+        run.count(1, (json.dumps(case['workbook'], sort_keys=True, default=str), key, str(vals)), True, 'template/' + how)
+        try:
+            fresh = bookrun.ExcelModel().from_dict(d)
+            v_fresh = bookrun.solution_values(wb, fresh.calculate(inputs=ov_impl))
+            o2 = rnd.sample(outs, min(2, len(outs)))
+            sol = bookrun.ExcelModel().from_dict(d).calculate(inputs=ov_impl, outputs=[wb.key(*a) for a in o2])
+            for a in o2:
+                got = bookrun.wire_impl(np.asarray(sol[wb.key(*a)].value, object)[0, 0]) if wb.key(*a) in sol else 'missing'
+                if got != v_fresh[a]:
+                    run.violation('cell %s is %s when only 2 outputs are requested and %s otherwise' % (
+                        wb.key(*a), bookrun.show(got), bookrun.show(v_fresh[a])), dict(case, cell=wb.key(*a)))
+        except Exception as ex:
+            run.violation('calculate(inputs=...) raised %s: %s' % (type(ex).__name__, str(ex)[:100]), case)
+            continue
         q = list(v_fresh)
         req.append(wb.to_wire(q, overrides=ov_cells))
         pend.append((wb, q, v_fresh, case, ov_cells))
